@@ -3,7 +3,6 @@
 package proxy
 
 import (
-	"net"
 	"bufio"
 	"context"
 	"crypto/ecdsa"
@@ -13,6 +12,7 @@ import (
 	"crypto/x509/pkix"
 	"encoding/pem"
 	"math/big"
+	"net"
 	"net/http"
 	"os"
 	"path/filepath"
@@ -42,19 +42,19 @@ var scratchRoot = func() string {
 }()
 
 type envOpts struct {
-	Backend        string `json:"backend"`
-	IgnoreCC       bool   `json:"ignore_cc"`
-	ForceDefault   bool   `json:"force_default"`
-	DefaultMaxAgeS int    `json:"default_max_age_s"`
-	RetryInvalid   bool   `json:"retry_invalid_range"`
-	Retry416       bool   `json:"retry_416"`
-	Shards         int    `json:"shards"`
-	Limit          int64  `json:"limit"`
-	WithCA         bool   `json:"with_ca"`
-	Server         bool   `json:"server"` // serve through the real http.Server over in-memory pipes
-	BudgetPercent  int    `json:"budget_percent"`
-	Plain          bool   `json:"plain"` // configure through the update API instead of command-line overwrites
-	CleanupIntervalS int  `json:"cleanup_interval_s"`
+	Backend          string `json:"backend"`
+	IgnoreCC         bool   `json:"ignore_cc"`
+	ForceDefault     bool   `json:"force_default"`
+	DefaultMaxAgeS   int    `json:"default_max_age_s"`
+	RetryInvalid     bool   `json:"retry_invalid_range"`
+	Retry416         bool   `json:"retry_416"`
+	Shards           int    `json:"shards"`
+	Limit            int64  `json:"limit"`
+	WithCA           bool   `json:"with_ca"`
+	Server           bool   `json:"server"` // serve through the real http.Server over in-memory pipes
+	BudgetPercent    int    `json:"budget_percent"`
+	Plain            bool   `json:"plain"` // configure through the update API instead of command-line overwrites
+	CleanupIntervalS int    `json:"cleanup_interval_s"`
 }
 
 type penv struct {
